@@ -9,6 +9,7 @@ import os
 import sys
 
 from pyasn1 import error
+from pyasn1.compat.octets import null
 from pyasn1.type import univ
 
 _PY2 = sys.version_info < (3,)
@@ -232,7 +233,13 @@ def readFromStream(substrate, size=-1, context=None):
             raise error.EndOfStreamError(context=context)
 
         elif len(received) < size:
-            substrate.seek(-len(received), os.SEEK_CUR)
+            # a short read: the rest is either on its way or will never come
+            probe = substrate.read(1)
+
+            substrate.seek(-len(received) - len(probe or null), os.SEEK_CUR)
+
+            if probe is not None and not probe:  # end-of-stream
+                raise error.EndOfStreamError(context=context)
 
             # behave like a non-blocking stream
             yield error.SubstrateUnderrunError(context=context)
